@@ -475,6 +475,22 @@ func ifOf(b *ssa.BasicBlock) *ssa.If {
 // ("guard passed") edge.
 type EdgePred func(b *ssa.BasicBlock, succ int) bool
 
+// condOverride: while the path-sensitive search evaluates an edge predicate at
+// an If whose condition is a boolean phi with a known operand, the operand
+// stands in for the condition (single-threaded, set and cleared by Cut.Run).
+var condOverride = map[*ssa.BasicBlock]ssa.Value{}
+
+// condOf: the condition the block branches on (nil if it does not end in an If).
+func condOf(b *ssa.BasicBlock) ssa.Value {
+	if v, ok := condOverride[b]; ok {
+		return v
+	}
+	if i := ifOf(b); i != nil {
+		return i.Cond
+	}
+	return nil
+}
+
 func anyEdge(ps ...EdgePred) EdgePred {
 	return func(b *ssa.BasicBlock, s int) bool {
 		for _, p := range ps {
@@ -494,7 +510,7 @@ func edgeNil(match func(ssa.Value) bool, wantNil bool) EdgePred {
 		if i == nil {
 			return false
 		}
-		x, nilOnTrue, ok := nilCmp(i.Cond)
+		x, nilOnTrue, ok := nilCmp(condOf(b))
 		if !ok || !match(strip(x)) {
 			return false
 		}
@@ -510,7 +526,7 @@ func edgeBool(match func(ssa.Value) bool, want bool) EdgePred {
 		if i == nil {
 			return false
 		}
-		c, neg := stripNot(i.Cond)
+		c, neg := stripNot(condOf(b))
 		if !match(strip(c)) {
 			return false
 		}
@@ -527,7 +543,7 @@ func edgeCmp(match func(*ssa.BinOp) bool, want bool) EdgePred {
 		if i == nil {
 			return false
 		}
-		c, neg := stripNot(i.Cond)
+		c, neg := stripNot(condOf(b))
 		bo, ok := c.(*ssa.BinOp)
 		if !ok || !match(bo) {
 			return false
@@ -545,7 +561,7 @@ func eqEdge(ma, mb func(ssa.Value) bool, wantEqual bool) EdgePred {
 		if i == nil {
 			return false
 		}
-		c, neg := stripNot(i.Cond)
+		c, neg := stripNot(condOf(b))
 		bo, ok := c.(*ssa.BinOp)
 		if !ok || (bo.Op != token.EQL && bo.Op != token.NEQ) {
 			return false
